@@ -82,4 +82,7 @@ def run(tier, seed, replay=None):
                                         "shadow_program": plan.shadow_program()})
         ok_plans.append(plan)
     shape.validate(rep, exe, ok_plans, PROP)
+    # the Lean model of the three generators (Expand.lean) against the real helper trait / helper impls / main impl
+    from . import expandcorr
+    expandcorr.compare(rep, exe, ok_plans)
     return rep.finish()
